@@ -197,3 +197,5 @@ Fixpoint handed_out (ops : list op) (rs : list res) : list N :=
   | _ :: ops', _ :: rs' => handed_out ops' rs'
   | _, _ => []
   end.
+(* the store after one more operation *)
+Definition exec (s : mstore) (o : op) : mstore := fst (step s o).
